@@ -146,7 +146,21 @@ type Robs struct {
 	Pos int `json:"pos"`
 }
 
-func CoqCase(in Input, fixed bool, ev []Event, obs []Robs) string {
+func coqFull(o FullObs) string {
+	fs := make([]string, len(o.Srcs))
+	for i, f := range o.Srcs {
+		fs[i] = fmt.Sprintf("mkFS %d %s %d %d %s", f.S, hx.Bool(f.Opened), f.Tag, f.Pos, hx.Nats(f.Got))
+	}
+	started := o.Started
+	if o.Note != "" {
+		// a restart that failed or hung is no behaviour of the model: make the observation
+		// inconsistent (an unknown status) so that it is rejected rather than lost
+		return fmt.Sprintf("mkFO %d %d 99 %s %d %s", o.At, o.Stored, hx.Bool(started), o.AfterBoot, hx.List(fs))
+	}
+	return fmt.Sprintf("mkFO %d %d %d %s %d %s", o.At, o.Stored, o.AfterInit, hx.Bool(started), o.AfterBoot, hx.List(fs))
+}
+
+func CoqCase(in Input, fixed bool, ev []Event, obs []Robs, full []FullObs) string {
 	items := make([]string, 0, len(ev))
 	for _, e := range ev {
 		if s, ok := CoqEvent(e); ok {
@@ -157,6 +171,10 @@ func CoqCase(in Input, fixed bool, ev []Event, obs []Robs) string {
 	for i, o := range obs {
 		os[i] = fmt.Sprintf("(%d, %d, (%d, %d))", o.At, o.S, o.Tag, o.Pos)
 	}
-	return fmt.Sprintf("mkCase (mkCfg %d %s %d %s) %s %s",
-		in.NSrc, hx.Nats(in.Inits), in.Retries, hx.Bool(fixed), hx.List(items), hx.List(os))
+	fo := make([]string, len(full))
+	for i, o := range full {
+		fo[i] = "(" + coqFull(o) + ")"
+	}
+	return fmt.Sprintf("mkCase (mkCfg %d %s %d %s) %s %s %s",
+		in.NSrc, hx.Nats(in.Inits), in.Retries, hx.Bool(fixed), hx.List(items), hx.List(os), hx.List(fo))
 }
